@@ -203,7 +203,7 @@ def fwd_grad_chooser(g, ans, x, axis=None, keepdims=False):
     if anp.isscalar(x):
         return g
     if not keepdims:
-        if isinstance(axis, int):
+        if isinstance(axis, (int, onp.integer)):
             ans = anp.expand_dims(ans, axis)
         elif isinstance(axis, tuple):
             for ax in sorted(a % anp.ndim(x) for a in axis):
